@@ -5,10 +5,11 @@ NOPTR = ["--no-pointer-check"]     # header-only segment object, see plan/C18.py
 RECL = ["_mi_heap_memid_is_suitable", "_mi_arena_field_cursor_init", "_mi_arena_field_cursor_done",
         "mi_segment_check_free/c_check_free_rec", "mi_segment_reclaim/c_segment_reclaim_rec", "_mi_arena_segment_mark_abandoned", "mi_segment_try_purge/c_seg_try_purge_rec2",
         "_mi_arena_segment_clear_abandoned", "mi_segment_get_reclaim_tries/c_reclaim_tries_use"] + OPT
-def R(n, e, f, **kw):
-    # the walk over abandoned segments is unwound K+2 times (the cursor contract yields at most K segments); 14 is for the contract library's own loops
-    return dict(dict(name=n, entry=e, harness="harness/seg_reclaim.c", enforce=f, replace=RECL, config="SCALED", label="B", K=2, functions=[f], timeout=600, unwind=14,
-                     unwindset={f + ".0": 4}), **kw)
+RK = 4      # bound of the walks over abandoned segments (segments the cursor yields)
+def R(n, e, f, K=RK, **kw):
+    # the walk over abandoned segments is unwound K+2 times (the cursor body yields at most K segments); 14 is for the contract library's own loops
+    return dict(dict(name=n, entry=e, harness="harness/seg_reclaim.c", enforce=f, replace=RECL, config="SCALED", label=("B" if K else "P"), K=K, functions=[f], timeout=600, unwind=14,
+                     defs=["-DVC_K=%d" % (K or 1)], objbits=(12 if (K or 1) > 4 else 10), unwindset={f + ".0": (K or 1) + 2}), **kw)
 def span_allocate_pairs():
     # one run per slice index (see contracts/seg_span.h); quick: first page slice, an odd one, and two whose spans can exceed MI_MAX_SLICE_OFFSET_COUNT or reach the table end
     out = []
@@ -31,9 +32,10 @@ def pairs():
                   replace=["_mi_arena_alloc_aligned", "_mi_os_commit/c_os_commit_rec2", "_mi_arena_free", "mi_segments_track_size", "_mi_segment_map_allocated_at"] + OPT,
                   functions=["mi_segment_os_alloc"], timeout=600, cbmc_flags=NOPTR, replay={"src": "replay_src/witness_c07.c"}),
       "reclaim_all": R("reclaim_all", "h_reclaim_all", "_mi_abandoned_reclaim_all", replay={"src": "replay_src/witness_c15.c"}),
-      "abandoned_collect": R("abandoned_collect", "h_abandoned_collect", "_mi_abandoned_collect", tier="thorough", timeout=3000),
-      "try_reclaim": R("try_reclaim", "h_try_reclaim", "mi_segment_try_reclaim", tier="thorough", timeout=3000),
-      "attempt_reclaim": R("attempt_reclaim", "h_attempt_reclaim", "_mi_segment_attempt_reclaim", label="P", K=None),
+      "abandoned_collect": R("abandoned_collect", "h_abandoned_collect", "_mi_abandoned_collect", timeout=900),
+      "try_reclaim": R("try_reclaim", "h_try_reclaim", "mi_segment_try_reclaim", timeout=900),
+      "try_reclaim_k5": R("try_reclaim_k5", "h_try_reclaim", "mi_segment_try_reclaim", K=5, timeout=3000, tier="thorough", mem_gb=16),
+      "attempt_reclaim": R("attempt_reclaim", "h_attempt_reclaim", "_mi_segment_attempt_reclaim", K=None),
       "span_page_of": dict(name="span_page_of", entry="h_span_page_of", harness="harness/seg_span.c", enforce=None, mode="dfcc", config="SCALED", label="P", unwind=14,
                   replace=["mi_segment_span_allocate", "mi_segment_ensure_committed/c_ensure_committed_rec"], functions=["_mi_segment_page_of"], timeout=600, cbmc_flags=NOPTR),
       "span_free": dict(name="span_free", entry="h_span_free", harness="harness/seg_span.c", enforce="mi_segment_span_free", config="SCALED", label="P", unwind=14,
